@@ -192,6 +192,17 @@ CHECKS = {
             "Python's zipfile is the reference reader; member rows of damaged archives are only required for "
             "truncations that zipfile still reads identically; unavailable columns are not asserted.",
             "DESIGN.md 4 C19"),
+    "C20": ("exploration",
+            "property-based testing (Hypothesis): generated trees x ignore files x root spellings x switch sources; "
+            "differential against `git check-ignore` (git) and reference matchers written from the tools' "
+            "documentation (hg, docker); metamorphic switch-off relation",
+            "Rows with the switch on must equal the unfiltered listing minus exactly the entries that the tool's "
+            "rules ignore (directly or through an ignored ancestor); with the switch off, or overridden by no..., "
+            "the listing must be unfiltered even though ignore files exist; roots `.`, `./`, relative and absolute "
+            "sub-directories, cwd below the repository root; option, alias, configuration default, override.",
+            "git itself is the git oracle; the hg/docker references are a reading of their documentation for the "
+            "generated pattern subset; one open known finding (libgit2 negation heuristic) is matched by signature.",
+            "DESIGN.md 4 C20"),
 }
 
 PENDING = {}
